@@ -350,7 +350,7 @@ func (p *prober) semantic(t *rapid.T, b *base) (string, []byte) {
 	w := p.w
 	switch b.endpoint {
 	case "swap", "mint":
-		how := rapid.SampledFrom([]string{"outputs_over_by_one", "dup_output_identical", "dup_output_changed_witness", "dup_output_changed_amount", "unknown_keyset_output", "non_key_amount_output", "output_not_a_point", "already_signed_output", "overflow_outputs", "spent_input", "unknown_quote", "nut10_secret_input", "nut10_secret_input", "nut10_secret_input"}).Draw(t, "sem_how")
+		how := rapid.SampledFrom([]string{"outputs_over_by_one", "dup_output_identical", "dup_output_changed_witness", "dup_output_changed_amount", "dup_output_other_hex_case", "unknown_keyset_output", "non_key_amount_output", "output_not_a_point", "already_signed_output", "overflow_outputs", "spent_input", "unknown_quote", "nut10_secret_input", "nut10_secret_input", "nut10_secret_input"}).Draw(t, "sem_how")
 		outs := b.body["outputs"].([]any)
 		switch how {
 		case "outputs_over_by_one":
@@ -380,6 +380,28 @@ func (p *prober) semantic(t *rapid.T, b *base) (string, []byte) {
 				return "", nil
 			}
 			b.body["outputs"] = append(append([]any{}, outs[:len(outs)-1]...), cp)
+		case "dup_output_other_hex_case":
+			// one blinded message twice, spelled in lower and in upper case, each for half the amount: whatever the mint
+			// makes of it (two messages or one), a refusal must come before anything is written
+			at := -1
+			for i, o := range outs {
+				om := o.(map[string]any)
+				if om["amount"].(uint64) >= 2 && strings.ToUpper(om["B_"].(string)) != om["B_"].(string) {
+					at = i
+					break
+				}
+			}
+			if at < 0 {
+				return "", nil
+			}
+			lo := outs[at].(map[string]any)
+			lo["amount"] = lo["amount"].(uint64) / 2
+			up := map[string]any{}
+			for k, v := range lo {
+				up[k] = v
+			}
+			up["B_"] = strings.ToUpper(lo["B_"].(string))
+			b.body["outputs"] = append(outs, up)
 		case "unknown_keyset_output":
 			outs[0].(map[string]any)["id"] = "00aabbccddeeff00"
 		case "non_key_amount_output":
